@@ -23,6 +23,9 @@ CLAIMED['C09'] = ('other', 'bounded symbolic execution: multiset conservation, a
 CLAIMED['C10'] = ('other', 'bounded symbolic execution: for every door and box the step touched, and for the faced cell always, the post-state equals the documented door/key/box rule (status changes iff faced ACTUATE and closed, or locked with a key of the door colour; boxes replaced by their content iff faced ACTUATE; held item unchanged), decided by z3 over all poses, actions, held items and cell contents within the bounds',
                   'trusts z3, the proxy layer, the LazyRows/LazyAgent stubs; the history-level safety claim is the inductive consequence of this one-step result', 'DESIGN.md §5 C10')
 
+CLAIMED['C01'] = ('other', 'bounded symbolic execution of GridWorld.functional_step / functional_observation and the three membership predicates: per built-in transition function, per shipped chain and per local reward/termination component, z3 decides on every path that the step returns without raising, that everything the step touched stays inside the declared space, that the reward is a finite float and the flag a boolean; membership predicates are compared with an independent oracle on possibly ill-formed inputs; rejected actions raise ValueError and touch nothing. Closure of arbitrary compositions and histories follows by induction from per-component closure',
+                  'trusts z3, the proxy layer, LazyRows/LazyAgent/SymRng; debug membership checks are ON only on the small fully symbolic grids (they scan every cell); scanning rewards are covered in C12', 'DESIGN.md §5 C01')
+
 NOT_APPLICABLE = {
     'C19': 'floating-point trigonometric ray kernel (sin/cos/arctan2 via libm/numpy, round-to-nearest of accumulated float steps): no SMT theory for the transcendental part, the only FP-expressible lemma timed out (300 s) on z3 and cvc5, and the remaining inputs form a small finite domain a solver would merely enumerate; see DESIGN.md §5 C19',
 }
